@@ -30,12 +30,12 @@ func (nopLogger) Debug(string, ...any) {}
 // TaskSpec is one task of a generated cache-model program.
 type TaskSpec struct {
 	// IdentsFirst: the task dependencies are written in front of the file dependencies
-	IdentsFirst bool `json:"idents_first,omitempty"`
-	Name  string   `json:"name"`
-	Files []string `json:"files,omitempty"` // literal file dependencies (relative)
-	Globs []string `json:"globs,omitempty"`
-	Deps  []string `json:"deps,omitempty"` // task dependencies
-	NCmds int      `json:"ncmds"`
+	IdentsFirst bool     `json:"idents_first,omitempty"`
+	Name        string   `json:"name"`
+	Files       []string `json:"files,omitempty"` // literal file dependencies (relative)
+	Globs       []string `json:"globs,omitempty"`
+	Deps        []string `json:"deps,omitempty"` // task dependencies
+	NCmds       int      `json:"ncmds"`
 	// Writes are side effects of the task's first command: it rewrites the content of existing
 	// files, which may be dependencies of other tasks of the same run. A task that rewrites one
 	// of its OWN dependencies is not judged itself (whether "its inputs" are those before or
